@@ -111,4 +111,27 @@ def holdsGateway (h : Host) (i : Iface) (out : Option IP) : Bool :=
   | none => out == none
   | some r => out == r.gw
 
+/-! ### well-formedness of a snapshot (what the Go runtime and `ip.ParseIPNet` guarantee) -/
+
+/-- an IPv4 address entry carries 4 bytes -/
+def addrWF (a : Addr) : Bool := a.v6 || a.ip.length == 4
+
+def hostWF (h : Host) : Bool := h.ifaces.all (fun i => i.addrs.all addrWF)
+
+/-- the parsed target is a 4-byte address (C02_parse_exact) -/
+def optsWF (o : Opts) : Bool :=
+  match o.target with
+  | none => true
+  | some t => t.ip.length == 4
+
+/-- every default route of the main table names an interface of the snapshot (a unicast route does;
+    `unreachable default` / multipath routes have no single interface) -/
+def routesResolve (h : Host) : Bool :=
+  (defaultRoutes h).all (fun r => h.ifaces.any (fun i => i.index == r.link))
+
+/-- what an observer sees of the model's result -/
+def outcomeOf : Except Err IPScan → Outcome
+  | .error _ => .failed
+  | .ok s => .chose s.range.iface.name s.range.srcIP s.range.srcMAC s.vpn
+
 end SxVerif.Spec.Iface
